@@ -101,3 +101,24 @@ package grammar
 //@ loop 1: invariant change == 0 ==> (forall s *symbol.Symbol :: s.IsEpsilonClosure == before(s.IsEpsilonClosure)) && closedEps(g, idx1)
 //@ loop 2: invariant every_isEpsilon == allEps(r, idx2)
 //@ before_stmt [C12,C03] "r.LeftPart.IsEpsilonClosure = true" allEps(r, len(r.RighPart))
+
+// ---------------------------------------------------------------------------------------------
+// C18: the diagram node of a state lists exactly its items, numbered like the state
+func spec_itemStr(g *Grammar, r int, d int) string { panic("spec") }
+
+//@ func (*Grammar).ItemToStr
+//@ trusted text of one item (lhs -> rhs with the dot before symbol Dot): a deterministic function of (rule, dot); the placement of the dot inside the text is not verified
+//@ props C18
+//@ ensures result == spec_itemStr(g, It.RuleIndex, It.Dot)
+//@ modifies nothing
+
+//@ func (*Grammar).StateGraphNode
+//@ props C18
+//@ results Node
+//@ requires g != nil && IC != nil && (forall i int :: 0 <= i && i < len(IC.Items) ==> IC.Items[i] != nil)
+//@ ensures [C18] Node != nil && fresh(Node) && Node.StateNumber == IC.Index && len(Node.Children) == len(IC.Items)
+//@ ensures [C18] forall i int :: 0 <= i && i < len(IC.Items) ==> Node.Children[i] == spec_itemStr(g, IC.Items[i].RuleIndex, IC.Items[i].Dot)
+//@ modifies nothing
+//@ allocates graph.GraghNode
+//@ loop 0: invariant Node != nil && fresh(Node) && Node.StateNumber == IC.Index && len(Node.Children) == idx0 && unchanged(graph.GraghNode)
+//@ loop 0: invariant forall i int :: 0 <= i && i < idx0 ==> Node.Children[i] == spec_itemStr(g, IC.Items[i].RuleIndex, IC.Items[i].Dot)
